@@ -128,6 +128,37 @@ func runC02(w *W) {
 func c02Year(w *W, y int) {
 	tab := snapshotYear(y)
 	w.R.States++
+	// (0) the by-number entry point returns exactly the table's month (same year, number, new-moon day, length), and no
+	// leap month that the table does not have; asked year after year, so that the key spaces of neighbouring years meet
+	hasLeap := map[int]bool{}
+	for _, m := range tab {
+		if m.Y != y {
+			continue
+		}
+		if m.M < 0 {
+			hasLeap[-m.M] = true
+		}
+		var lm *calendar.LunarMonth
+		if msg, p := try(func() { lm = calendar.NewLunarMonthFromYm(m.Y, m.M) }); p {
+			w.Viol(fmt.Sprintf("C02:NewLunarMonthFromYm:panic:%s", m.key()), msg, m.key())
+		} else if lm == nil || lm.GetYear() != m.Y || lm.GetMonth() != m.M || lm.GetFirstJulianDay() != m.First || lm.GetDayCount() != m.Days || lm.IsLeap() != (m.M < 0) {
+			got := "nil"
+			if lm != nil {
+				got = fmt.Sprintf("%d/%d first %.1f, %d days, leap=%v", lm.GetYear(), lm.GetMonth(), lm.GetFirstJulianDay(), lm.GetDayCount(), lm.IsLeap())
+			}
+			w.Viol(fmt.Sprintf("C02:NewLunarMonthFromYm:%s", m.key()), fmt.Sprintf("NewLunarMonthFromYm(%d,%d) = %s; the year's table has %s first %.1f, %d days", m.Y, m.M, got, m.key(), m.First, m.Days), m.key())
+		}
+		w.R.Evals++
+	}
+	for k := 1; k <= 12; k++ {
+		if hasLeap[k] {
+			continue
+		}
+		var lm *calendar.LunarMonth
+		if _, p := try(func() { lm = calendar.NewLunarMonthFromYm(y, -k) }); !p && lm != nil {
+			w.Viol(fmt.Sprintf("C02:NewLunarMonthFromYm:phantom-leap:%d/-%d", y, k), fmt.Sprintf("NewLunarMonthFromYm(%d,-%d) returns %d/%d although lunar year %d has no leap month %d", y, k, lm.GetYear(), lm.GetMonth(), y, k), y)
+		}
+	}
 	// (a) new-moon day of every month in the table
 	for _, m := range tab {
 		jdn := int(m.First)
